@@ -564,6 +564,41 @@ func c17R7(c *Ctx) {
 		return
 	}
 	c.check(isNilConst(cas.Common().Args[1]), "relay/CAS-from-nil", c.ipos(cas), "relay adoption is a CAS from nil", "relay adoption CAS does not start from nil")
+	// the pair is built with the accepted connection as the client side and the connector's result as the server side
+	for _, ci := range callsIn(f, idIs("trzsz.newTunnelRelay")) {
+		a := ci.Common().Args
+		cliOK := len(a) == 3 && isVar("clientConn")(a[1])
+		srvOK := false
+		if len(a) == 3 {
+			if call, _ := callOf(a[2]); call != nil && call.Call.StaticCallee() == nil && !call.Call.IsInvoke() {
+				srvOK = true // the connector's result
+			}
+		}
+		c.check(cliOK && srvOK, "relay/pair-sides", c.ipos(ci), "the tunnel pair is (accepted connection = client side, connector result = server side)", "the tunnel pair is built with the two connections swapped: client bytes are pumped as server output and the other way round")
+	}
+	// the relay hop of the trigger: the port in the forwarded trigger is replaced by the relay's own listening port, same id
+	lf := c.fn("TrzszRelay.listenForTunnel")
+	okHop := false
+	for _, ci := range callsIn(lf, idIs("bytes.ReplaceAll")) {
+		part := func(v ssa.Value) (string, string, string) {
+			call, _ := callOf(strip(v))
+			if call == nil || calleeID(&call.Call) != "fmt.Sprintf" {
+				return "", "", ""
+			}
+			fm, _ := constString(call.Call.Args[0])
+			els, ok := sliceElems(call.Call.Args[1])
+			if !ok || len(els) != 2 {
+				return fm, "", ""
+			}
+			_, f1, _ := fieldOf(strip(els[0].V))
+			_, f2, _ := fieldOf(strip(els[1].V))
+			return fm, f1, f2
+		}
+		fo, o1, o2 := part(ci.Common().Args[1])
+		fn, n1, n2 := part(ci.Common().Args[2])
+		okHop = fo == ":%s:%d" && fn == fo && o1 == "uniqueID" && n1 == "uniqueID" && o2 == "tunnelPort" && n2 == "tunnelRelayPort" && isVar("buf")(ci.Common().Args[0])
+	}
+	c.check(okHop, "relay/trigger-port-rewritten", c.pos(lf.Pos()), "the forwarded trigger carries the same id and the relay's own port in place of the server's", "the relay does not rewrite ':id:serverPort' to ':id:relayPort' in the forwarded trigger (arguments swapped / other values): the client dials the wrong port or greets with the wrong id")
 	// the adopted pair learns which relay it belongs to before its pumps start (they park and reset through it)
 	var bind ssa.Instruction
 	for _, ci := range callsIn(f, anyID) {
